@@ -109,25 +109,25 @@ Qed.
 (* FIPS 180-4 / NIST example vectors *)
 Example sha256_empty :
   sha256 [] = hexs "e3b0c44298fc1c149afbf4c8996fb92427ae41e4649b934ca495991b7852b855".
-Proof. vm_compute. reflexivity. Qed.
+Proof. vm_check. Qed.
 
 Example sha256_abc :
   sha256 (str "abc") = hexs "ba7816bf8f01cfea414140de5dae2223b00361a396177a9cb410ff61f20015ad".
-Proof. vm_compute. reflexivity. Qed.
+Proof. vm_check. Qed.
 
 (* two blocks *)
 Example sha256_448bits :
   sha256 (str "abcdbcdecdefdefgefghfghighijhijkijkljklmklmnlmnomnopnopq")
   = hexs "248d6a61d20638b8e5c026930c3e6039a33ce45964ff2167f6ecedd419db06c1".
-Proof. vm_compute. reflexivity. Qed.
+Proof. vm_check. Qed.
 
 (* padding boundary: 55, 56 and 64 bytes of 'a' *)
 Example sha256_55a :
   sha256 (repeat 97 55) = hexs "9f4390f8d30c2dd92ec9f095b65e2b9ae9b0a925a5258e241c9f1e910f734318".
-Proof. vm_compute. reflexivity. Qed.
+Proof. vm_check. Qed.
 Example sha256_56a :
   sha256 (repeat 97 56) = hexs "b35439a4ac6f0948b6d6f9e3c6af0f5f590ce20f1bde7090ef7970686ec6738a".
-Proof. vm_compute. reflexivity. Qed.
+Proof. vm_check. Qed.
 Example sha256_64a :
   sha256 (repeat 97 64) = hexs "ffe054fe7ae0cb6dc65c3af9b61d5209f439851db43d0ba5997337df154668eb".
-Proof. vm_compute. reflexivity. Qed.
+Proof. vm_check. Qed.
